@@ -78,6 +78,11 @@ func c10Run(c c10Case) (string, string) {
 		return "", ""
 	}
 	// logon, then the outbound history
+	if strings.HasPrefix(c.Pattern, "g") {
+		// the peer's Logon is ahead of the expected number: the session answers and then sends its own
+		// ResendRequest, which takes outbound number 2 and belongs to the sent history like any message
+		w.nextIn = 5
+	}
 	w.logonOK(hb)
 	for i, p := range c.Pattern {
 		switch p {
@@ -165,7 +170,7 @@ func runC10(R *vlib.Out) {
 	}
 	maxN, pairN := 4, 2
 	if *vlib.Tier == "thorough" {
-		maxN, pairN = 5, 3
+		maxN, pairN = 6, 4
 	}
 	R.Bounds["max_outbound_history"] = maxN + 1
 	R.Bounds["pairs_of_requests_up_to_history"] = pairN + 1
@@ -215,6 +220,11 @@ func runC10(R *vlib.Out) {
 			}
 		}
 		gen("")
+		for _, p := range append([]string{}, pats...) {
+			if len(p) < maxN {
+				pats = append(pats, "g"+p)
+			}
+		}
 		for _, p := range pats {
 			n := len(p) + 1
 			for b := 0; b <= n+2; b++ {
